@@ -4,7 +4,8 @@ from seeded/<id>/meta.json"""
 import json, os, re
 V = os.path.dirname(os.path.dirname(os.path.abspath(__file__)))
 ids = ["C01d","C02d","C03e","C04e","C05d","C06d","C08c","C09c","C18d","C17c","C04f","C12d","C02e","C13d","C14e","C03f",
-       "C10d","C11d","C15d","C16d","C19d","C20d","C07d","C01e"]
+       "C10d","C11d","C15d","C16d","C19d","C20d","C07d","C01e",
+       "C05e","C06e","C02f","C14f","C16e","C18e","C12e","C04g"]
 rows = ["| id | breaks | change | needs | which check catches it |", "|----|--------|--------|-------|------------------------|"]
 n_det = n_miss = 0
 for i in ids:
@@ -23,9 +24,9 @@ all_meta = [json.load(open(os.path.join(V, "seeded", d, "meta.json"))) for d in 
             if os.path.exists(os.path.join(V, "seeded", d, "meta.json"))]
 total = len(all_meta)
 missed_total = sum(1 for m in all_meta if str(m.get("first_run", "")).startswith("missed"))
-body = body.replace("SEEDED_TALLY", "%d seeded changes in all; in batches 8–10 %d of %d were reported by the property's own quick check on the first "
-                    "run and %d were missed by it at first (then strengthened, see the table); over all ten batches %d were missed at first. "
-                    "After the strengthening every seeded change is reported by the check of the property it breaks." % (total, n_det, n_det + n_miss, n_miss, missed_total))
+body = body.replace("SEEDED_TALLY", "%d seeded changes in all; in batches 8–11 %d of %d were reported by the property's own quick check on the first "
+                    "run and %d were missed by it at first (then strengthened, see the table); (batches 1–7: 21 of 60 missed at first, §12.4). "
+                    "After the strengthening every seeded change is reported by the check of the property it breaks." % (total, n_det, n_det + n_miss, n_miss))
 d = open(os.path.join(V, "DESIGN.md")).read()
 start = d.find("## 13. Round 3")
 end = d.find("## Appendix A.")
